@@ -178,7 +178,7 @@ func (m *Machine) derefCheck(p *value) *value {
 }
 
 func (m *Machine) storeSlot(addr *value, v value) {
-	if m.frozen != nil && m.frozen[addr] {
+	if m.frozen != nil && (m.frozen[addr] || m.globalFrozen[addr]) {
 		m.frozenWrites = append(m.frozenWrites, m.pos())
 	}
 	*addr = v
